@@ -98,11 +98,11 @@ class Scenario:
             del self.reg_by[a]
         self.ev(ev="dereg", c=c, a=a)
 
-    def hreg(self, via, a, dereg=False):
+    def hreg(self, via, a, dereg=False, weight=1.0):
         """an instance registered / deregistered over HTTP through node `via` (NamingRoute: applied by the owner node)"""
         ip, port = HADDRS[a]
-        r = self.c.nodes[via].call({"op": "ns_http_deregister" if dereg else "ns_http_register", "service": SVC + "-" + a, "ip": ip, "port": port})
-        self.ops.append({"op": "hdereg" if dereg else "hreg", "via": via, "a": a, "res": r.get("res")})
+        r = self.c.nodes[via].call({"op": "ns_http_deregister" if dereg else "ns_http_register", "service": SVC + "-" + a, "ip": ip, "port": port, "weight": weight})
+        self.ops.append({"op": "hdereg" if dereg else "hreg", "via": via, "a": a, "weight": weight, "res": r.get("res")})
         if r.get("res") != "ok":
             raise ToolError("HTTP-style %s through node %d failed: %s" % ("deregister" if dereg else "register", via, r))
         self.ev(ev="hdereg" if dereg else "hreg", a=a)
@@ -181,6 +181,20 @@ class Scenario:
                 time.sleep(2.0)
                 self.reg("c2", "a1", "w4")
                 self.settle_and_read(rounds=4)
+            elif self.kind == "update_then_deregister":
+                # an instance the other nodes already hold is changed and deregistered within one 500 ms sync batch
+                self.open_clients([1, 2, 3])
+                self.reg("c1", "a1", "w2")
+                self.reg("c2", "a2", "w2")
+                self.hreg(3, "h1", weight=2.0)
+                self.hreg(1, "h2", weight=2.0)
+                time.sleep(2.0)
+                self.reg("c1", "a1", "w3")
+                self.dereg("c1", "a1")
+                for via, h in ((3, "h1"), (1, "h2")):
+                    self.hreg(via, h, weight=3.0)
+                    self.hreg(via, h, dereg=True)
+                self.settle_and_read(rounds=2)
             elif self.kind == "node_death":
                 self.open_clients([1, 2, 2, 3])
                 self.reg("c1", "a1")
@@ -291,7 +305,7 @@ def run(tier):
     c.add_negative_control("Distro where a sync update leaves the key in the old client's index violates Converges (the "
                            "anti-entropy round keeps deleting and re-fetching a live instance)", n["violated"])
 
-    kinds = ["takeover", "node_death"] + ["random"] * (6 if quick else 30)
+    kinds = ["takeover", "update_then_deregister", "node_death"] + ["random"] * (5 if quick else 30)
     jobs = [(os.path.join(sc_dir, "s%d" % i), c.seed * 1000 + i, k) for i, k in enumerate(kinds)]
 
     def one(j):
